@@ -19,6 +19,7 @@ TOK = {
     '2^40': 1 << 40, '2^63-1': (1 << 63) - 1, '2^63': 1 << 63,
     '2^64-1': (1 << 64) - 1, '10G': 10 << 30, '2^16-1': (1 << 16) - 1,
     '2^55-1': (1 << 55) - 1, '2^55': 1 << 55, '2048': 2048, '2^20': 1 << 20,
+    '2^64-2': (1 << 64) - 2,
 }
 
 
@@ -213,7 +214,8 @@ def vhdx(L, rnd):
         ments.append(guid_bytes(FILE_PARAMS) + struct.pack('<III', 65536 + 8, 8, 0) + b'\0' * 4)
     if L.get('mvds', True):
         ments.append(guid_bytes(VIRTUAL_DISK_SIZE) +
-                     struct.pack('<III', item_off & 0xffffffff, L.get('item_len', 8) & 0xffffffff, 0) + b'\0' * 4)
+                     struct.pack('<III', item_off & 0xffffffff, L.get('item_len', 8) & 0xffffffff,
+                                 tok(L.get('item_flags', '0')) & 0xffffffff) + b'\0' * 4)
     for _ in range(L.get('mpost', 0)):
         ments.append(guid_bytes(FILE_PARAMS) + struct.pack('<III', 65536 + 8, 8, 0) + b'\0' * 4)
     mcount = L.get('mcount')
@@ -305,7 +307,7 @@ def vmdk(L, rnd):
     desc_sec = tok(L.get('desc_sec', 1))
     sectors = tok(L.get('sectors', '2048'))
     footer = L.get('footer')
-    gd = GD_AT_END if footer is not None else L.get('gd', 21)
+    gd = GD_AT_END if footer is not None else tok(L.get('gd', 21)) & 0xffffffffffffffff
     ver = L.get('ver', 1)
     sig = b'KDMV' if L.get('sig', True) else b'KDMW'
     kw = dict(sig=sig, ver=ver, sectors=sectors, desc_sec=desc_sec, desc_num=desc_num, gd=gd)
